@@ -194,7 +194,8 @@ def _added_since_training(plan):
 # ---- TreeBandit ------------------------------------------------------------------------------------------------
 
 TREE_PARAMS = [{}, {"max_depth": 2}, {"min_samples_leaf": 2}, {"max_depth": 1}, {"splitter": "random"},
-               {"max_features": 1}, {"max_leaf_nodes": 3}]
+               {"max_features": 1}, {"max_leaf_nodes": 3}, {"random_state": None, "max_features": 1},
+               {"random_state": 5, "splitter": "random"}]
 
 
 @st.composite
@@ -263,7 +264,8 @@ def evaluate_tree(plan, ctx):
         tree = trees[a]
         X0 = np.asarray([x for x, _ in store[a]["first"]], dtype=float)
         y0 = np.asarray([r for _, r in store[a]["first"]], dtype=float)
-        indep = DecisionTreeRegressor(**plan["tree_parameters"], random_state=cfg["seed"]).fit(X0, y0)
+        tparams = {k: v for k, v in plan["tree_parameters"].items() if k != "random_state"}  # the bandit's seed rules
+        indep = DecisionTreeRegressor(**tparams, random_state=cfg["seed"]).fit(X0, y0)
         pts = np.asarray([x for x, _ in store[a]["rows"]] + grid, dtype=float)
         la, lb = tree.apply(pts), indep.apply(pts)
         # same partition of the points (leaf ids of two equal trees are equal as well)
